@@ -1,6 +1,6 @@
 (** C12 — subscribers see exactly one event per entry that actually entered the replica. *)
 From ID Require Import Model.Actor Model.Ranger Model.Replica Proofs.ActorFacts Proofs.ValidFacts Proofs.RangerFacts.
-From ID Require Import Proofs.FsPutFacts Proofs.RefineFacts Proofs.EventFacts.
+From ID Require Import Proofs.FsPutFacts Proofs.RefineFacts Proofs.EventFacts Proofs.ReachFacts Proofs.AckFacts.
 
 (** delivery: every event goes, in order, to every live subscription exactly once *)
 Theorem C12_deliver_spec : forall s ns evs,
@@ -70,6 +70,17 @@ Theorem C12_local_delete_events : forall ks EH MF CAP mss split s ns au k now r,
   end.
 Proof. exact local_delete_events. Qed.
 
+(** an entry that entered the replica is announced once and never again: every announced entry is held
+    or superseded afterwards ([C12_reconciliation_events], last clause; [C14_store_invariant_kept] keeps
+    "held or superseded" through every later request), and the re-delivery of an entry that is held or
+    superseded -- the same entry from another neighbour, or after a reconciliation -- is refused,
+    changes nothing and produces no event *)
+Theorem C12_redelivery_is_silent : forall EH MF CAP mss split s ns e ok from st now,
+  SInv (a_tables s) -> wf_entry e -> covered (recs (a_tables s)) e ->
+  let '(s', r, d) := astep prefix_succ EH MF CAP mss split s (AInsertRemote ns e ok from st now) in
+  d = [] /\ a_tables s' = a_tables s /\ r <> AOk.
+Proof. exact redelivery_is_silent. Qed.
+
 (** the hypotheses are met, and a deletion marker that arrives by reconciliation is announced: two
     subscriptions, one stored entry below the marker's key *)
 Example C12_marker_by_reconciliation_is_announced :
@@ -92,3 +103,4 @@ Print Assumptions C12_reconciliation_events.
 Print Assumptions C12_local_insert_events.
 Print Assumptions C12_local_delete_events.
 Print Assumptions C12_marker_by_reconciliation_is_announced.
+Print Assumptions C12_redelivery_is_silent.
